@@ -15,6 +15,10 @@ extern "C" {
 /* internal test entry points (declared in src/db_impl.h) */
 int ldb_test_compact_memtable(ldb_t *db);
 void ldb_test_compact_range(ldb_t *db, int level, const ldb_slice_t *begin, const ldb_slice_t *end);
+/* the environment's file lock (declared in src/util/env.h), used by the cross-process lock helper */
+typedef struct ldb_filelock_s ldb_filelock_t;
+int ldb_lock_file(const char *filename, ldb_filelock_t **lock);
+int ldb_unlock_file(ldb_filelock_t *lock);
 }
 
 #include "case.h"
